@@ -80,7 +80,7 @@ Proof.
   - exists rg, t. rewrite app_nil_r. split; [reflexivity|]. split; [exact HR|]. auto.
   - pose proof (R_amend _ _ _ _ _ _ b HR) as A.
     destruct (len p + len b <=? room) eqn:E.
-    + destruct A as (rg' & t' & Eq & HR' & Hr & Hw & Hs). rewrite Eq.
+    + destruct A as (rg' & t' & Eq & HR' & Hr & Hw & Hs & _). rewrite Eq.
       destruct (IH _ _ _ _ _ HR') as (rg1 & t1 & Eq1 & HR1 & Hr1 & Hw1 & Hs1).
       rewrite len_app in Eq1, HR1. rewrite Eq1. exists rg1, t1.
       rewrite <- app_assoc in HR1. split; [reflexivity|]. split; [exact HR1|].
